@@ -1463,6 +1463,8 @@ class Interp:
                                                  "isspace", "isdigit", "isalpha", "find", "count", "casefold",
                                                  "title", "swapcase", "capitalize"):
                 return Bound(obj, _StrMethod("concrete:" + attr))
+        if isinstance(obj, (SymStr, SymChar)) and attr in ("startswith", "endswith"):
+            return Bound(obj, _StrMethod("sym:" + attr))
         if isinstance(obj, FactorDict):
             if attr in ("keys",):
                 return Bound(obj, _StrMethod("keys"))
@@ -1670,6 +1672,8 @@ class Interp:
                 items = list(it)
             elif isinstance(it, (SymStr, SymChar)):
                 items = list(self._as_symstr(it).items)
+            elif isinstance(it, Dct):
+                items = list(it.items.keys())
             else:
                 raise Unsupported(f"for over {it!r} at {self.site}")
             broke = False
@@ -2258,6 +2262,15 @@ Interp.call_function = _call_function  # type: ignore
 def _call_builtin_method(self: Interp, info, args, kwargs):
     obj, rest = args[0], args[1:]
     n = info.name
+    if isinstance(obj, (SymStr, SymChar)) and n.startswith("sym:"):
+        arg = rest[0] if rest else None
+        if not isinstance(arg, str):
+            raise Unsupported(f"{n} with abstract argument at {self.site}")
+        items = self._as_symstr(obj).items
+        if len(arg) > len(items):
+            return False
+        part = items[:len(arg)] if n == "sym:startswith" else items[len(items) - len(arg):]
+        return self.str_equal(SymStr(part), arg)
     if isinstance(obj, Lst):
         if n == "append":
             obj.items.append(rest[0])
